@@ -93,4 +93,7 @@ theorem text_MetadataCache_GetMetadata_ok : Oidc.Shapes.Text_MetadataCache_GetMe
 theorem text_MetadataCache_isCacheValid_ok : Oidc.Shapes.Text_MetadataCache_isCacheValid := by unfold Oidc.Shapes.Text_MetadataCache_isCacheValid; rfl
 theorem text_MetadataCache_Cleanup_ok : Oidc.Shapes.Text_MetadataCache_Cleanup := by unfold Oidc.Shapes.Text_MetadataCache_Cleanup; rfl
 
+/-! further obligations against the regenerated program text (`Oidc/Shapes.lean`): constructor wiring and URL builders -/
+theorem text_createDefaultHTTPClient_ok : Oidc.Shapes.Text_createDefaultHTTPClient := by unfold Oidc.Shapes.Text_createDefaultHTTPClient; rfl
+
 end Oidc.Props.C20
